@@ -107,6 +107,7 @@ type cnNet struct {
 	pendingRot map[*cnTxSpec]map[string]signature.Signer // key rotations proposed by not yet executed registrations
 	rhPrev     map[string]hash.Hash                      // runtime -> encoded hash of its latest block (for commitments)
 	vrfAlpha   []byte                                    // VRF backend: the alpha proofs are currently collected for
+	vaultAddr  map[string]staking.Address                // vault name (V0, V1, ...) -> address, in order of appearance in the state
 }
 
 func q(n uint64) quantity.Quantity { return *quantity.NewFromUint64(n) }
@@ -166,7 +167,7 @@ func beaconParams(cfg cnCfg) beacon.ConsensusParameters {
 func newNet(cfg cnCfg, scratch string) (*cnNet, error) {
 	viper.Set("debug.dont_blame_oasis", true)
 	viper.Set("debug.allow_test_keys", true)
-	n := &cnNet{cfg: cfg, scratch: scratch, names: map[string]string{}, pendingRot: map[*cnTxSpec]map[string]signature.Signer{}, rhPrev: map[string]hash.Hash{}}
+	n := &cnNet{cfg: cfg, scratch: scratch, vaultAddr: map[string]staking.Address{}, names: map[string]string{}, pendingRot: map[*cnTxSpec]map[string]signature.Signer{}, rhPrev: map[string]hash.Hash{}}
 	rng := rand.New(rand.NewSource(cfg.Seed*7919 + 17))
 	fac := memorySigner.NewFactory()
 	mk := func(role signature.SignerRole) signature.Signer {
